@@ -298,6 +298,19 @@ theorem aggressor_is_the_operations_order (t0 tick : Nat) (trading : Bool) (ht :
   obtain ⟨new, h1, h2⟩ := book_step_active hi op hvo hnfo
   exact ⟨new, h1, fun tr htr => by rw [← subject_abs]; exact h2 tr htr⟩
 
+/-- … and the passive order of every record appended by placing an existing order or by a modification
+was RESTING (Active, queued) before the operation — in every reachable state. (`create_and_place_order`
+is a creation, which appends nothing, followed by such a placement.) -/
+theorem passive_order_was_resting (t0 tick : Nat) (trading : Bool) (ht : 0 < tick) (ops : List Op)
+    (hv : ∀ op ∈ ops, ValidOp op) (hnf : NoFault (Book.new t0 tick trading) ops) (op : Op) (hvo : ValidOp op)
+    (hnfo : (((Book.new t0 tick trading).run ops).step op).1.faulted = false)
+    (hop : (∃ i, op = .place i) ∨ (∃ i, op = .ev (.new i)) ∨ (∃ i p v, op = .modify i p v) ∨ (∃ i p v, op = .ev (.modify i p v))) :
+    let b := (Book.new t0 tick trading).run ops
+    ∃ new, (b.step op).1.trades = b.trades ++ new ∧
+      ∀ tr ∈ new, ∃ e, b.orders[tr.passive]? = some e ∧ e.order.status = .active := by
+  intro b
+  exact book_passive_was_resting (inv_run (inv_new t0 tick trading ht) ops hv hnf) op hvo hnfo hop
+
 /-- Non-vacuity: the OLDER order (id 0, created first, placed last) is the aggressor of the record. -/
 example :
     let b := (Book.new 0 1 true).run [.create .bid 5 1 (some 10), .cap .ask 5 2 (some 10)]
